@@ -287,10 +287,45 @@ func configCmd(args []string) int {
 			"errs", fmt.Sprint(e1, e2, e3))
 		stats["formats"]++
 	}
-	for _, depth := range []string{"top", "nested", "deep", "proxy", "proxy-nested"} {
+	for _, depth := range []string{"top", "nested", "deep", "proxy", "proxy-nested", "proxy-plugin", "proxy-healthcheck", "proxy-loadbalancer", "visitor", "visitor-transport", "visitor-plugin", "webserver", "auth"} {
 		doc := map[string]any{"serverAddr": "127.0.0.1", "transport": map[string]any{"tls": map[string]any{"enable": true}},
-			"proxies": []any{map[string]any{"name": "p", "type": "tcp", "localPort": 80, "remotePort": 6000, "transport": map[string]any{"useEncryption": true}}}}
+			"auth":      map[string]any{"method": "token", "token": "t"},
+			"webServer": map[string]any{"port": 7400},
+			"proxies": []any{map[string]any{"name": "p", "type": "tcp", "remotePort": 6000, "transport": map[string]any{"useEncryption": true},
+				"healthCheck": map[string]any{"type": "tcp", "intervalSeconds": 10}, "loadBalancer": map[string]any{"group": "g", "groupKey": "k"},
+				"plugin": map[string]any{"type": "static_file", "localPath": "/tmp", "stripPrefix": "static"}}},
+			"visitors": []any{map[string]any{"name": "v", "type": "stcp", "serverName": "s", "secretKey": "k", "bindPort": 9000, "transport": map[string]any{"useEncryption": true},
+				"plugin": map[string]any{"type": "virtual_net", "destinationIP": "10.0.0.1"}}}}
+		sub := func(path ...string) map[string]any {
+			var m any = doc
+			for _, k := range path {
+				switch x := m.(type) {
+				case map[string]any:
+					m = x[k]
+				}
+				if l, ok := m.([]any); ok {
+					m = l[0]
+				}
+			}
+			return m.(map[string]any)
+		}
 		switch depth {
+		case "proxy-plugin":
+			sub("proxies", "plugin")["unknownField"] = 1
+		case "proxy-healthcheck":
+			sub("proxies", "healthCheck")["unknownField"] = 1
+		case "proxy-loadbalancer":
+			sub("proxies", "loadBalancer")["unknownField"] = 1
+		case "visitor":
+			sub("visitors")["unknownField"] = 1
+		case "visitor-transport":
+			sub("visitors", "transport")["unknownField"] = 1
+		case "visitor-plugin":
+			sub("visitors", "plugin")["unknownField"] = 1
+		case "webserver":
+			sub("webServer")["unknownField"] = 1
+		case "auth":
+			sub("auth")["unknownField"] = 1
 		case "top":
 			doc["unknownField"] = 1
 		case "nested":
